@@ -192,6 +192,8 @@ def _alias_through_helper(repo, rep, T, f, rd, e):
     rep.undecided('R1/parameters-read-only', '%s: %s' % (f.name, norm(e.stmt)[:60]), 'the helper %s may return its argument; %s' % (h.name, ex), f.loc(e.stmt))
     return
   for pname, cond in back.items():
+    if pname not in h.params:
+      continue
     i = h.params.index(pname) - off
     a = recv.args[i] if 0 <= i < len(recv.args) else au.kwarg(recv, pname)
     if a is None:
